@@ -3,7 +3,8 @@
 (* set inferred for every reference contains the schema type of the field it names;   *)
 (* and checking the enclosing property against the schema succeeds.                    *)
 (* event: [id, out (parser), prop (projected, when accepted), schema, check (outcome   *)
-(*         of type_check_references)]                                                    *)
+(*         of type_check_references), check2 (outcome of the same check on the same    *)
+(*         object after it was checked against another schema in between)]              *)
 EXTENDS TraceBatch, HplTyping
 VARIABLES l
 vars == <<l>>
@@ -13,6 +14,7 @@ Verdict(e) ==
        (IF "TypeMismatch" \in fs THEN {"InferredTypeContainsSchemaType"} ELSE {})
        \cup (IF fs \ {"TypeMismatch"} # {} THEN {"GEN:NotWellTypedUnderSchema:" \o (CHOOSE f \in fs \ {"TypeMismatch"} : TRUE)} ELSE {})
        \cup (IF e.check = "ok" THEN {} ELSE {"SchemaCheckSucceeds:" \o e.check})
+       \cup (IF e.check2 = "ok" THEN {} ELSE {"SchemaCheckSucceedsWhateverWasCheckedBefore:" \o e.check2})
        \cup {"WT." \o c : c \in WT(e.prop)}
 Init == l = 1
 Step == l <= NEvents /\ ReportAll(Events[l].id, Verdict(Events[l])) /\ l' = l + 1
